@@ -321,8 +321,12 @@ theorem lexOne_ident_x (x : Char) (w rest : List Char) (hx : x = 'x' ∨ x = 'X'
   cases w with
   | nil =>
     simp only [List.nil_append] at hs ⊢
-    rcases hr with rfl | ⟨r, rfl | rfl⟩
+    rcases hr with rfl | ⟨r, rfl | rfl | rfl⟩
     · rcases hx with rfl | rfl <;> simp (config := {decide := true}) [lexOne]
+    · rcases hx with rfl | rfl <;>
+      · unfold lexOne
+        simp (config := {decide := true}) only [if_false, if_true, show isDigitC 'x' = false by decide, show isDigitC 'X' = false by decide, true_or, or_true]
+        rw [hs]
     · rcases hx with rfl | rfl <;>
       · unfold lexOne
         simp (config := {decide := true}) only [if_false, if_true, show isDigitC 'x' = false by decide, show isDigitC 'X' = false by decide, true_or, or_true]
